@@ -13,8 +13,14 @@
      is_bridge_pair     synthetic /\ calls = {s} /\ (bridge flag \/ potentialP)
      class_frame        a class of the result against the class it came from (see below)
    Hypothesis `get_specialized J = Ok _`: the hierarchy work-lists did not exhaust their fuel
-   (the Rust loops have no visited set and do not terminate on a cyclic hierarchy). *)
-From FB Require Import C15.Model C15.Theory C15.Theory2.
+   (the Rust loops have no visited set and do not terminate on a cyclic hierarchy);
+   section 5 below (fuel_suffices) discharges it for acyclic hierarchies.
+     depth_ok d G c     every chain of edges of the table G starting at c has at most d edges
+     cost d G c         the number of paths of G that start at c (the empty path included)
+     hier_ok d J        depth_ok d holds for every class of both hierarchy tables of the jar
+     fuel_bound d J     the largest cost of a class in the two tables
+     ranked J rk D      rk decreases along every super-type edge and is below D on the jar's classes *)
+From FB Require Import C15.Model C15.Theory C15.Theory2 C15.Theory3.
 
 (* 1. bridge_iff: the pairs collected by Jar::get_specialized_methods are exactly the bridge pairs *)
 Theorem C15_bridge_iff : forall J b2s s2b,
@@ -195,6 +201,73 @@ Theorem C15_walk_fuel_mono : forall G f stack out r k,
   walk f G stack out = Ok r -> walk (f + k) G stack out = Ok r.
 Proof. exact walk_mono. Qed.
 Print Assumptions C15_walk_fuel_mono.
+
+(* 5. fuel_suffices.  get_ancestors / get_descendants are stacks without a visited set: a class reached
+   along two inheritance paths is expanded twice, so a run started at c pops once per PATH of the
+   hierarchy that starts at c — [cost] — not once per reachable class.  On a table whose chains are
+   bounded the run answers (does not exhaust its fuel) exactly when the fuel is at least the sum of
+   the costs of the classes on its stack. *)
+Theorem C15_walk_exact : forall G d fuel stack out,
+  (forall c, In c stack -> depth_ok d G c = true) ->
+  ((exists r, walk fuel G stack out = Ok r) <-> (total d G stack <= fuel)%nat).
+Proof. exact walk_exact. Qed.
+Print Assumptions C15_walk_exact.
+
+(* [cost] and [depth_ok] do not depend on the depth bound once it is large enough *)
+Theorem C15_depth_irrelevant : forall G d D c, (d <= D)%nat -> depth_ok d G c = true ->
+  depth_ok D G c = true /\ cost D G c = cost d G c.
+Proof. exact depth_le. Qed.
+Print Assumptions C15_depth_irrelevant.
+
+(* Jar::get_specialized_methods with the fuel as a parameter; the model uses jar_fuel J *)
+Theorem C15_get_specialized_fuel : forall J, get_specialized J = get_specialized_f (jar_fuel J) J.
+Proof. exact get_specialized_is_f. Qed.
+Print Assumptions C15_get_specialized_fuel.
+
+(* acyclic hierarchy (chains of at most d edges, decidable) and fuel at least the largest number of
+   paths from a class (decidable): the model does not answer Err, for every such fuel, and all of
+   them give the same answer *)
+Theorem C15_fuel_suffices : forall J d,
+  hier_ok d J = true -> (fuel_bound d J <= jar_fuel J)%nat -> get_specialized J <> Err.
+Proof. exact fuel_suffices. Qed.
+Print Assumptions C15_fuel_suffices.
+
+Theorem C15_fuel_irrelevant : forall J d f1 f2,
+  hier_ok d J = true -> (fuel_bound d J <= f1)%nat -> (fuel_bound d J <= f2)%nat ->
+  exists r, get_specialized_f f1 J = Ok r /\ get_specialized_f f2 J = Ok r.
+Proof. exact fuel_irrelevant. Qed.
+Print Assumptions C15_fuel_irrelevant.
+
+Theorem C15_get_specialized_fuel_mono : forall f k J r,
+  get_specialized_f f J = Ok r -> get_specialized_f (f + k)%nat J = Ok r.
+Proof. exact get_specialized_mono. Qed.
+Print Assumptions C15_get_specialized_fuel_mono.
+
+(* acyclicity in the formulation of C06: a rank that decreases along every super-type edge *)
+Theorem C15_ranked_hier_ok : forall J rk D, ranked J rk D = true -> hier_ok (S D) J = true.
+Proof. exact ranked_hier_ok. Qed.
+Print Assumptions C15_ranked_hier_ok.
+
+Theorem C15_fuel_suffices_ranked : forall J rk D,
+  ranked J rk D = true -> (fuel_bound (S D) J <= jar_fuel J)%nat -> get_specialized J <> Err.
+Proof. exact fuel_suffices_ranked. Qed.
+Print Assumptions C15_fuel_suffices_ranked.
+
+(* a cheap sufficient condition: at most b direct super types and at most b direct subtypes per
+   class, chains of at most d edges, and 1 + b + ... + b^d <= the model's fuel *)
+Theorem C15_fuel_suffices_degree : forall J b d,
+  hier_ok d J = true -> degree_le b (ix_parents J) = true -> degree_le b (ix_children J) = true ->
+  (geo b d <= jar_fuel J)%nat -> get_specialized J <> Err.
+Proof. exact fuel_suffices_degree. Qed.
+Print Assumptions C15_fuel_suffices_degree.
+
+(* non-vacuity and sharpness: a diamond hierarchy is inside the hypotheses (5 paths from 4 classes,
+   the doubly reached class is listed twice; 4 units of fuel are not enough); the condition on the
+   fuel cannot be dropped for the model's quadratic fuel: an acyclic tower of nine diamonds (28
+   classes, 36 edges) needs 2045 steps, more than jar_fuel = 1444 *)
+Theorem C15_fuel_examples : fuel_examples.
+Proof. exact fuel_examples_hold. Qed.
+Print Assumptions C15_fuel_examples.
 
 (* non-vacuity: /repo's fixture MyNode/Node (flagged and unflagged), a well-formed mapping set *)
 Theorem C15_examples : nonvacuous.
